@@ -264,6 +264,10 @@ static void execOp(const Group& T, const Op& o) {
         case 20: STRCMP_EQUAL_LOCATION((const char*)0, "abd", text, file, line); break;
         case 21: MEMCMP_EQUAL_LOCATION((const void*)0, blobB, 4, text, file, line); break;
         case 22: FAIL_TEST_LOCATION(text, file, line); break;
+        case 24: fired("operands_with_coinciding_or_unprintable_forms"); STRCMP_EQUAL_LOCATION(operandPair(o.b).expected, operandPair(o.b).actual, text, file, line); break;
+        case 25: fired("operands_with_coinciding_or_unprintable_forms"); STRCMP_NOCASE_EQUAL_LOCATION(operandPair(o.b).expected, operandPair(o.b).actual, text, file, line); break;
+        case 26: fired("operands_with_coinciding_or_unprintable_forms"); CHECK_EQUAL_LOCATION(1.00000001, 1.00000002, text, file, line); break;      // two values that differ and print alike
+        case 27: fired("operands_with_coinciding_or_unprintable_forms"); CHECK_EQUAL_LOCATION(SimpleString(operandPair(o.b).expected), SimpleString(operandPair(o.b).actual), text, file, line); break;
         default: ENUMS_EQUAL_TYPE_LOCATION(int, 1, 2, text, file, line); break;
         }
         break;
@@ -669,7 +673,7 @@ void executeRun(const Desc& d, Obs& o) {
     SimIO& io = simIO();
     o.console = io.console; o.writesAfterClose = io.writesAfterClose; o.badHandle = io.badHandle;
     for (size_t i = 0; i < io.files.size(); i++) o.files.push_back(*io.files[i]);
-    if (getenv("RUNSIM_DEBUG")) { fprintf(stderr, "---- child console (%zu bytes)\n%s\n---- procLog:", o.childConsole.size(), o.childConsole.c_str()); for (size_t i = 0; i + 2 < o.procLog.size(); i += 3) fprintf(stderr, " (%lld,%lld,%lld)", (long long)o.procLog[i], (long long)o.procLog[i + 1], (long long)o.procLog[i + 2]); fprintf(stderr, "\n"); }
+    if (getenv("RUNSIM_DEBUG")) { for (size_t i = 0; i < o.fails.size(); i++) fprintf(stderr, "---- failure %zu: %s\n", i, o.fails[i].msg.c_str()); fprintf(stderr, "---- child console (%zu bytes)\n%s\n---- procLog:", o.childConsole.size(), o.childConsole.c_str()); for (size_t i = 0; i + 2 < o.procLog.size(); i += 3) fprintf(stderr, " (%lld,%lld,%lld)", (long long)o.procLog[i], (long long)o.procLog[i + 1], (long long)o.procLog[i + 2]); fprintf(stderr, "\n"); }
     if (d.pi("static_wrapper")) staticWrapperEpilogue(d, o);
 }
 
